@@ -114,9 +114,11 @@ def _judge_side(ctx, p, side, cv, img_a, img_b, msk_a, msk_b, dmin, dmax, H, W):
         r, c, k = np.argwhere(nan_g != nan_e)[0]
         sig = "C02/computable-cost-is-nan" if nan_g[r, c, k] else "C02/not-computable-cost-is-finite"
         ctx.violation(sig, f"cell {(int(r), int(c))} d={disps[k]} got {got[r, c, k]} expected {exp[r, c, k]} {tag}")
+    # costs are float32: sums of interpolated radiometry (sixteenths once squared) may need more than 24 significant bits
     tol = 1e-5 if p["meth"] == "zncc" else 0.0
     both = ~nan_g & ~nan_e
-    bad = both & (np.abs(got - exp) > tol)
+    with np.errstate(invalid="ignore"):
+        bad = both & (np.abs(got - exp) > tol + 1e-6 * np.abs(np.where(both, exp, 0.0)))
     if bad.any():
         r, c, k = np.argwhere(bad)[0]
         ctx.violation("C02/cost-value-wrong", f"cell {(int(r), int(c))} d={disps[k]} got {got[r, c, k]} expected {exp[r, c, k]} "
